@@ -48,11 +48,13 @@ fn wrap(template: usize, word: &str, expansion: &[String]) -> (String, Vec<Strin
 // ----- brace reference -------------------------------------------------------------------------
 
 /// Parse a well-formed brace term; None if not well-formed by the grammar
-/// term := atom* ; atom := 'a' | 'b' | '{' term (',' term)+ '}'
+/// term := atom* ; atom := 'a' | 'b' | '{' term (',' term)+ '}' | '{' term '}'
+/// (a pair of braces without a comma is literal text around its contents)
 #[derive(Debug, Clone)]
 enum Atom {
     Lit(char),
     Group(Vec<Vec<Atom>>),
+    Single(Vec<Atom>),
 }
 
 fn parse_term(b: &[char], pos: &mut usize, depth: usize, max_depth: &mut usize) -> Option<Vec<Atom>> {
@@ -84,9 +86,10 @@ fn parse_term(b: &[char], pos: &mut usize, depth: usize, max_depth: &mut usize) 
                     return None;
                 }
                 if alts.len() < 2 {
-                    return None;
+                    out.push(Atom::Single(alts.pop().unwrap()));
+                } else {
+                    out.push(Atom::Group(alts));
                 }
-                out.push(Atom::Group(alts));
             }
             ',' | '}' => {
                 if depth == 0 {
@@ -111,6 +114,7 @@ fn expand_atoms(atoms: &[Atom]) -> Vec<String> {
             let heads: Vec<String> = match first {
                 Atom::Lit(c) => vec![c.to_string()],
                 Atom::Group(alts) => alts.iter().flat_map(|a| expand_atoms(a)).collect(),
+                Atom::Single(inner) => expand_atoms(inner).into_iter().map(|x| format!("{{{}}}", x)).collect(),
             };
             let mut out = Vec::new();
             for h in &heads {
@@ -132,8 +136,24 @@ pub fn brace_reference(term: &str, max_nest: usize, max_alts: usize, max_groups:
     if pos != b.len() || depth == 0 || depth > max_nest {
         return None;
     }
+    fn real_groups(atoms: &[Atom]) -> usize {
+        atoms.iter().map(|a| match a {
+            Atom::Lit(_) => 0,
+            Atom::Group(alts) => 1 + alts.iter().map(|t| real_groups(t)).sum::<usize>(),
+            Atom::Single(inner) => real_groups(inner),
+        }).sum()
+    }
+    if real_groups(&atoms) == 0 {
+        return None;    // nothing to expand: literal word, not a brace term
+    }
     fn limits(atoms: &[Atom], max_alts: usize, groups: &mut usize) -> bool {
         for a in atoms {
+            if let Atom::Single(inner) = a {
+                let mut g = 0;
+                if !limits(inner, max_alts, &mut g) {
+                    return false;
+                }
+            }
             if let Atom::Group(alts) = a {
                 *groups += 1;
                 if alts.len() > max_alts {
@@ -300,7 +320,7 @@ fn run_case(c: &Case, acc: &mut Acc, scratch: &str) {
     let detail = match c {
         Case::Brace { term, .. } => {
             let nest = term.chars().fold((0, 0), |(d, m), ch| if ch == '{' { (d + 1, m.max(d + 1)) } else if ch == '}' { (d - 1, m) } else { (d, m) }).1;
-            format!("nest{}{}", nest, if term.contains(",}") || term.contains("{,") || term.contains(",,") { ":empty-alt" } else { "" })
+            format!("nest{}{}", nest, if term.contains("{a}") || term.contains("{b}") || term.contains("{}") || term.contains("{{") { ":group-without-comma" } else if term.contains(",}") || term.contains("{,") || term.contains(",,") { ":empty-alt" } else { "" })
         }
         Case::Range { m, n, s, .. } => format!("{}{}", if m > n { "descending" } else if m == n { "degenerate" } else { "ascending" }, match s { None => "", Some(0) => ":step0", Some(1) => ":step1", Some(_) => ":stepN" }),
         Case::Glob { pattern, .. } => PATTERNS[*pattern].to_string(),
